@@ -2,12 +2,12 @@
 //! (GossipMessage::{DeltaBatch, TargetedDelta, SyncResponse}.serialize/deserialize), WAL entry, segment, checkpoint - string
 //! values AND hash-field values that are not valid UTF-8 (0xff 0xfe, lone continuation bytes, truncated sequences, NUL, empty,
 //! the bytes of U+FFFD itself, all 256 byte values, random blobs).
-use crate::deltas::{bytes_of, delta_id, hex, lc};
+use crate::deltas::{bytes_of, delta_id, gen_value, hex, lc, show_delta, KINDS};
 use crate::rng::Rng;
 use crate::Found;
 use redis_sim::redis::SDS;
 use redis_sim::replication::gossip::GossipMessage;
-use redis_sim::replication::lattice::ReplicaId;
+use redis_sim::replication::lattice::{GCounter, PNCounter, ReplicaId, VectorClock};
 use redis_sim::replication::state::{CrdtValue, ReplicatedValue, ReplicationDelta};
 use redis_sim::streaming::segment::{Compression, SegmentReader, SegmentWriter};
 use redis_sim::streaming::{CheckpointReader, CheckpointWriter, WalEntry};
@@ -94,6 +94,171 @@ fn check_one(what: &str, payload: &[u8], ds: &[ReplicationDelta]) -> Option<Foun
     None
 }
 
+// ======================= the gossip envelope (C14): every GossipMessage variant x every CRDT value kind =======================
+// serialize() then deserialize() must succeed and give the same message: same variant, same source / target / epoch, the same updates in
+// the same order (full observable rendering), and - for what the accessors do not show (per-replica counter maps of a PNCounter, the
+// unique tags and sequence counters of an ORSet, every entry of a vector clock) - the same wire document when it is serialised again
+// (documents compared after parsing: object members and set-valued arrays have no order).  Heartbeats and sync requests as well.
+
+#[derive(Clone, PartialEq)]
+enum J { Null, Bool(bool), Num(String), Str(String), Arr(Vec<J>), Obj(Vec<(String, J)>) }
+
+struct JP<'a> { b: &'a [u8], i: usize }
+impl<'a> JP<'a> {
+    fn ws(&mut self) { while self.i < self.b.len() && matches!(self.b[self.i], b' ' | b'\n' | b'\r' | b'\t') { self.i += 1; } }
+    fn string(&mut self) -> Option<String> {
+        if self.b.get(self.i) != Some(&b'"') { return None; }
+        self.i += 1; let st = self.i;
+        while self.i < self.b.len() { match self.b[self.i] { b'\\' => self.i += 2, b'"' => { let s = String::from_utf8_lossy(&self.b[st..self.i]).into_owned(); self.i += 1; return Some(s); } _ => self.i += 1 } }
+        None
+    }
+    fn value(&mut self, depth: usize) -> Option<J> {
+        if depth > 64 { return None; }
+        self.ws();
+        match *self.b.get(self.i)? {
+            b'n' => { self.i += 4; Some(J::Null) }
+            b't' => { self.i += 4; Some(J::Bool(true)) }
+            b'f' => { self.i += 5; Some(J::Bool(false)) }
+            b'"' => self.string().map(J::Str),
+            b'[' => {
+                self.i += 1; let mut v = Vec::new();
+                loop { self.ws(); if self.b.get(self.i) == Some(&b']') { self.i += 1; return Some(J::Arr(v)); } if !v.is_empty() { if self.b.get(self.i) != Some(&b',') { return None; } self.i += 1; } v.push(self.value(depth + 1)?); }
+            }
+            b'{' => {
+                self.i += 1; let mut v = Vec::new();
+                loop {
+                    self.ws(); if self.b.get(self.i) == Some(&b'}') { self.i += 1; return Some(J::Obj(v)); }
+                    if !v.is_empty() { if self.b.get(self.i) != Some(&b',') { return None; } self.i += 1; self.ws(); }
+                    let k = self.string()?; self.ws(); if self.b.get(self.i) != Some(&b':') { return None; } self.i += 1;
+                    v.push((k, self.value(depth + 1)?));
+                }
+            }
+            _ => { let st = self.i; while self.i < self.b.len() && matches!(self.b[self.i], b'-' | b'+' | b'.' | b'e' | b'E' | b'0'..=b'9') { self.i += 1; } if self.i == st { None } else { Some(J::Num(String::from_utf8_lossy(&self.b[st..self.i]).into_owned())) } }
+        }
+    }
+}
+fn parse_json(b: &[u8]) -> Option<J> { let mut p = JP { b, i: 0 }; let v = p.value(0)?; p.ws(); if p.i == b.len() { Some(v) } else { None } }
+/// order-free rendering: object members sorted by key; arrays sorted when `sets` (arrays that serialise hash sets have no order)
+fn canon_json(j: &J, sets: bool) -> String {
+    match j {
+        J::Null => "null".into(), J::Bool(b) => b.to_string(), J::Num(n) => n.clone(), J::Str(s) => format!("\"{}\"", s),
+        J::Arr(v) => { let mut e: Vec<String> = v.iter().map(|x| canon_json(x, sets)).collect(); if sets { e.sort(); } format!("[{}]", e.join(",")) }
+        J::Obj(v) => { let mut e: Vec<String> = v.iter().map(|(k, x)| format!("\"{}\":{}", k, canon_json(x, sets))).collect(); e.sort(); format!("{{{}}}", e.join(",")) }
+    }
+}
+
+fn vclock(ids: &[(u64, u64)]) -> VectorClock { let mut vc = VectorClock::new(); for (r, n) in ids { for _ in 0..*n { vc.increment(ReplicaId(*r)); } } vc }
+
+/// every CRDT value kind, hand-made corner cases
+fn gossip_values(rng: &mut Rng) -> Vec<(String, ReplicatedValue)> {
+    let mut v: Vec<(String, ReplicatedValue)> = Vec::new();
+    v.push(("LWW string, ASCII".into(), ReplicatedValue::with_value(SDS::from_str("hello"), lc(7, 1))));
+    v.push(("LWW string, all 256 byte values".into(), ReplicatedValue::with_value(SDS::new((0..=255u8).collect()), lc(8, 2))));
+    v.push(("LWW string, empty".into(), ReplicatedValue::with_value(SDS::new(Vec::new()), lc(9, 3))));
+    v.push(("LWW string, 6000 random bytes".into(), ReplicatedValue::with_value(SDS::new(bytes_of(rng, 6000)), lc(10, 1))));
+    v.push(("LWW string stamped (u64::MAX, replica u64::MAX)".into(), ReplicatedValue::with_value(SDS::from_str("late"), lc(u64::MAX, u64::MAX))));
+    { let mut t = ReplicatedValue::with_value(SDS::from_str("gone"), lc(11, 2)); let mut c = lc(11, 2); t.delete(&mut c); v.push(("tombstone".into(), t)); }
+    { let mut g = GCounter::new(); g.increment_by(ReplicaId(1), 5); let mut x = ReplicatedValue::with_crdt(CrdtValue::GCounter(g), ReplicaId(1)); x.timestamp = lc(12, 1); v.push(("GCounter, one replica".into(), x)); }
+    { let mut g = GCounter::new(); for (r, n) in [(0u64, 1u64), (1, 2), (2, 9_007_199_254_740_993), (77, 3), (u64::MAX, 4)] { g.increment_by(ReplicaId(r), n); } let mut x = ReplicatedValue::with_crdt(CrdtValue::GCounter(g), ReplicaId(2)); x.timestamp = lc(13, 2); v.push(("GCounter, five replicas (ids 0, 1, 2, 77, u64::MAX; a count of 2^53+1)".into(), x)); }
+    { let x = ReplicatedValue::with_crdt(CrdtValue::GCounter(GCounter::new()), ReplicaId(1)); v.push(("GCounter, empty".into(), x)); }
+    { let mut p = PNCounter::new(); p.increment_by(ReplicaId(1), 10); p.decrement_by(ReplicaId(1), 3); p.increment_by(ReplicaId(2), 7); p.decrement_by(ReplicaId(3), 20); p.increment_by(ReplicaId(40), 1 << 40); let mut x = ReplicatedValue::with_crdt(CrdtValue::PNCounter(p), ReplicaId(1)); x.timestamp = lc(14, 1); v.push(("PNCounter, four replicas, increments and decrements".into(), x)); }
+    { let mut p = PNCounter::new(); p.decrement_by(ReplicaId(2), 1); let x = ReplicatedValue::with_crdt(CrdtValue::PNCounter(p), ReplicaId(2)); v.push(("PNCounter, only a decrement".into(), x)); }
+    { let mut c = CrdtValue::new_gset(); if let Some(s) = c.as_gset_mut() { for e in ["", "a", "with \"quotes\" and \\", "nul\0inside", "ключ 键 🔑", "line\r\nbreak"] { s.add(e.to_string()); } } let mut x = ReplicatedValue::with_crdt(c, ReplicaId(3)); x.timestamp = lc(15, 3); v.push(("GSet with odd members".into(), x)); }
+    { let mut c = CrdtValue::new_orset(); if let Some(s) = c.as_orset_mut() { s.add("a".into(), ReplicaId(1)); s.add("b".into(), ReplicaId(1)); s.add("a".into(), ReplicaId(2)); s.add("c".into(), ReplicaId(3)); s.remove(&"b".to_string()); s.add("b".into(), ReplicaId(2)); s.remove(&"c".to_string()); s.add("é\0".into(), ReplicaId(u64::MAX)); } let mut x = ReplicatedValue::with_crdt(c, ReplicaId(1)); x.timestamp = lc(16, 1); v.push(("ORSet: adds by four replicas, removes, a re-add".into(), x)); }
+    { let mut c = CrdtValue::new_orset(); if let Some(s) = c.as_orset_mut() { s.add("x".into(), ReplicaId(1)); s.remove(&"x".to_string()); } let x = ReplicatedValue::with_crdt(c, ReplicaId(1)); v.push(("ORSet: everything removed".into(), x)); }
+    { let mut h = ReplicatedValue::with_crdt(CrdtValue::new_hash(), ReplicaId(2)); let mut c = lc(3, 2); h.hash_set("f".into(), SDS::new(vec![0xff, 0xfe, 0]), &mut c); h.hash_set("gone".into(), SDS::from_str("x"), &mut c); h.hash_set("".into(), SDS::new(Vec::new()), &mut c); h.hash_set("ключ".into(), SDS::new((0..=255u8).rev().collect()), &mut c); h.hash_delete("gone", &mut c); h.hash_set("also gone".into(), SDS::from_str("y"), &mut c); h.hash_delete("also gone", &mut c); v.push(("Hash: live fields (binary values, empty field name) and two tombstoned fields".into(), h)); }
+    { let x = ReplicatedValue::with_crdt(CrdtValue::new_hash(), ReplicaId(2)); v.push(("Hash, empty".into(), x)); }
+    // each of them also with a vector clock / expiry / replication factor
+    let base = v.clone();
+    for (i, (name, val)) in base.iter().enumerate() {
+        let mut a = val.clone(); a.vector_clock = Some(vclock(&[(1, 3), (2, 1), (u64::MAX, 2), (0, 1)])); a.expiry_ms = Some([0u64, 12345, 9_007_199_254_740_993, u64::MAX][i % 4]); a.replication_factor = Some([0u8, 1, 3, 255][i % 4]);
+        v.push((format!("{} + vector clock of four replicas + expiry {:?} + replication factor {:?}", name, a.expiry_ms, a.replication_factor), a));
+        let mut b = val.clone(); b.vector_clock = Some(VectorClock::new()); b.expiry_ms = None;
+        if i % 3 == 0 { v.push((format!("{} + empty vector clock, no expiry", name), b)); }
+    }
+    // and what the shared generator makes of every kind
+    for k in 0..(2 * KINDS) { let t = 1 + rng.below(500); let r = 1 + rng.below(3); v.push((format!("generated value of kind {}", k % KINDS), gen_value(rng, k % KINDS, t, r))); }
+    v
+}
+
+fn gossip_roundtrip(what: &str, m: &GossipMessage) -> Option<Found> {
+    let describe = || -> String { let d = format!("{:?}", m); if d.len() > 700 { format!("{}..({} chars)", d.chars().take(500).collect::<String>(), d.len()) } else { d } };
+    let bad = |step: &str, got: String, req: &str| Some(Found { input: format!("{}: {} through GossipMessage::serialize / deserialize{}", what, describe(), step), observed: got, required: req.to_string() });
+    let wire = match m.serialize() { Ok(b) => b, Err(e) => return bad("", format!("serialize failed: {}", e), "Ok: every message is serialisable") };
+    let back = match GossipMessage::deserialize(&wire) { Ok(b) => b, Err(e) => return bad("", format!("deserialize of its own output failed: {} (wire: {})", e, String::from_utf8_lossy(&wire[..wire.len().min(400)])), "the message that was serialised") };
+    let meta_ok = match (m, &back) {
+        (GossipMessage::DeltaBatch { source_replica: a, epoch: e, .. }, GossipMessage::DeltaBatch { source_replica: b, epoch: f, .. }) => a == b && e == f,
+        (GossipMessage::TargetedDelta { source_replica: a, target_replica: t, epoch: e, .. }, GossipMessage::TargetedDelta { source_replica: b, target_replica: u, epoch: f, .. }) => a == b && t == u && e == f,
+        (GossipMessage::SyncResponse { source_replica: a, .. }, GossipMessage::SyncResponse { source_replica: b, .. }) => a == b,
+        (GossipMessage::SyncRequest { source_replica: a, known_versions: k }, GossipMessage::SyncRequest { source_replica: b, known_versions: l }) => a == b && k == l,
+        (GossipMessage::Heartbeat { source_replica: a, epoch: e }, GossipMessage::Heartbeat { source_replica: b, epoch: f }) => a == b && e == f,
+        _ => false,
+    };
+    if !meta_ok || back.source_replica() != m.source_replica() || back.is_delta_message() != m.is_delta_message() {
+        let d = format!("{:?}", back);
+        return bad("", format!("{}", d.chars().take(500).collect::<String>()), "the same variant with the same source / target / epoch / known versions");
+    }
+    let (want, got) = (m.clone().into_deltas(), back.clone().into_deltas());
+    match (&want, &got) {
+        (None, None) => {}
+        (Some(w), Some(g)) if same(w, g) => {}
+        _ => return bad("", format!("updates: {}", got.map(|g| render(&g)).unwrap_or_else(|| "none".into())), &format!("the same updates in the same order: {}", want.map(|w| w.iter().map(show_delta).collect::<Vec<_>>().join(" ; ")).unwrap_or_else(|| "none".into()))),
+    }
+    // everything that is on the wire, not only what the accessors show
+    let wire2 = match back.serialize() { Ok(b) => b, Err(e) => return bad(" / serialize again", format!("serialize failed: {}", e), "Ok") };
+    match (parse_json(&wire), parse_json(&wire2)) {
+        (Some(a), Some(b)) => {
+            if canon_json(&a, true) != canon_json(&b, true) {
+                let (ca, cb) = (canon_json(&a, true), canon_json(&b, true));
+                let at = ca.bytes().zip(cb.bytes()).position(|(x, y)| x != y).unwrap_or(ca.len().min(cb.len()));
+                let cut = |s: &str| -> String { let lo = at.saturating_sub(60); s.chars().skip(lo).take(160).collect() };
+                return bad(" / serialize again", format!("the document differs (members and sets compared without order): ..{}..", cut(&cb)), &format!("the document that was sent: ..{}..", cut(&ca)));
+            }
+        }
+        _ => return bad("", format!("the wire bytes are not a JSON document: {}", String::from_utf8_lossy(&wire[..wire.len().min(200)])), "a JSON document"),
+    }
+    None
+}
+
+fn check_gossip_envelope(rng: &mut Rng) -> Option<Found> {
+    let vals = gossip_values(rng);
+    let ids = [0u64, 1, 2, 3, 77, u64::MAX];
+    let epochs = [0u64, 1, 42, 9_007_199_254_740_993, u64::MAX];
+    let keys = ["k", "", "k\0ey", "ключ 键 🔑", "with \"quotes\" \\ and\r\nnewline"];
+    let envelopes = |rng: &mut Rng, ds: Vec<ReplicationDelta>| -> Vec<(&'static str, GossipMessage)> {
+        let (s, t, e) = (ReplicaId(*rng.pick(&ids)), ReplicaId(*rng.pick(&ids)), *rng.pick(&epochs));
+        vec![("DeltaBatch", GossipMessage::new_delta_batch(s, ds.clone(), e)), ("TargetedDelta", GossipMessage::new_targeted_delta(s, t, ds.clone(), e)), ("SyncResponse", GossipMessage::SyncResponse { source_replica: s, deltas: ds })]
+    };
+    // one update per message: every kind in every delta-carrying variant
+    for (i, (name, val)) in vals.iter().enumerate() {
+        let d = ReplicationDelta::new(keys[i % keys.len()].to_string(), val.clone(), ReplicaId(ids[i % ids.len()]));
+        for (variant, m) in envelopes(rng, vec![d.clone()]) { if let Some(f) = gossip_roundtrip(&format!("{} carrying one update ({})", variant, name), &m) { return Some(f); } }
+        // the other encodings of the same update (WAL entry, segment, checkpoint) and the relay hop
+        if let Some(f) = check_one(&format!("update with a {}", name), &[], std::slice::from_ref(&d)) { return Some(f); }
+    }
+    // mixed batches, the empty batch
+    for (variant, m) in envelopes(rng, Vec::new()) { if let Some(f) = gossip_roundtrip(&format!("{} carrying no update", variant), &m) { return Some(f); } }
+    for n in 0..30u64 {
+        let k = 2 + rng.below(9);
+        let ds: Vec<ReplicationDelta> = (0..k).map(|j| { let (_, val) = rng.pick(&vals); ReplicationDelta::new(format!("{}#{}", rng.pick(&keys), j), val.clone(), ReplicaId(*rng.pick(&ids))) }).collect();
+        for (variant, m) in envelopes(rng, ds.clone()) { if let Some(f) = gossip_roundtrip(&format!("{} carrying a mixed batch of {} updates", variant, k), &m) { return Some(f); } }
+        if n < 6 { if let Some(f) = check_one(&format!("a mixed batch of {} updates of all kinds", k), &[], &ds) { return Some(f); } }
+    }
+    // the whole zoo in one message
+    let all: Vec<ReplicationDelta> = vals.iter().enumerate().map(|(i, (_, val))| ReplicationDelta::new(format!("all#{}", i), val.clone(), ReplicaId(1))).collect();
+    for (variant, m) in envelopes(rng, all) { if let Some(f) = gossip_roundtrip(&format!("{} carrying one update of every kind ({} updates)", variant, vals.len()), &m) { return Some(f); } }
+    // heartbeats and sync requests
+    for s in ids { for e in epochs { if let Some(f) = gossip_roundtrip("Heartbeat", &GossipMessage::new_heartbeat(ReplicaId(s), e)) { return Some(f); } } }
+    for n in 0..12u64 {
+        let mut kv: HashMap<String, u64> = HashMap::new();
+        for j in 0..(n % 6) * 3 { kv.insert(format!("{}{}", rng.pick(&keys), j), *rng.pick(&epochs)); }
+        if n % 2 == 1 { for k in keys { kv.insert(k.to_string(), rng.next()); } }
+        let m = GossipMessage::SyncRequest { source_replica: ReplicaId(*rng.pick(&ids)), known_versions: kv };
+        if let Some(f) = gossip_roundtrip(&format!("SyncRequest with {} known versions", match &m { GossipMessage::SyncRequest { known_versions, .. } => known_versions.len(), _ => 0 }), &m) { return Some(f); }
+    }
+    None
+}
+
 pub fn search(_pid: &str, _oid: &str, seed: u64) -> Option<Found> {
     let mut rng = Rng::new(seed + 140);
     // SDS itself: new / len / as_bytes are exact
@@ -111,5 +276,5 @@ pub fn search(_pid: &str, _oid: &str, seed: u64) -> Option<Found> {
         for i in 0..(2 + rng.below(6)) { let (n, p) = rng.pick(&ps).clone(); let mut ds = deltas_for(&n, &p); let (_, mut d) = ds.swap_remove(rng.below(3) as usize); d.key = format!("{}#{}", d.key, i); batch.push(d); }
         if let Some(f) = check_one(&format!("a batch of {} updates with mixed binary payloads", batch.len()), &[], &batch) { return Some(f); }
     }
-    None
+    check_gossip_envelope(&mut rng)
 }
